@@ -150,6 +150,11 @@ func (h *h3run) writerRequest(r *u.Rng, i int) {
 			return
 		}
 	}
+	opaque := false
+	if r.Chance(1, 8) { // opaque URLs: RequestURI() is not a path; the writer strips scheme://host or refuses
+		opaque = true
+		ur = &url.URL{Scheme: "https", Host: host, Opaque: pick(r, []string{"//" + host + "/op?x=1", "//other.example/q", "opaque-thing", "//" + host, "//" + host + "*"})}
+	}
 	req := &http.Request{Method: method, URL: ur, Header: genHeader(r, false), Proto: "HTTP/1.1", ProtoMajor: 1, ProtoMinor: 1}
 	if r.Chance(1, 4) {
 		req.Host = "override.example"
@@ -180,6 +185,7 @@ func (h *h3run) writerRequest(r *u.Rng, i int) {
 		}
 	}()
 	fs, err := http3.VerifEncodeRequest(req, gzip)
+	h3wRequestCase(h.w, req, gzip, fs, err)
 	if err != nil {
 		h.dist["request:writer-error"]++
 		if strings.HasPrefix(err.Error(), "verif:") {
@@ -213,7 +219,12 @@ func (h *h3run) writerRequest(r *u.Rng, i int) {
 	if got.Method != wantMethod || got.Host != wantHost {
 		h.monfail("h3writers/request-differs", fmt.Sprintf("method %q host %q after the round trip", got.Method, got.Host), detail)
 	}
-	if !isConnect || isExt {
+	if (!isConnect || isExt) && opaque {
+		want := strings.TrimPrefix(ur.RequestURI(), "https://"+wantHost)
+		if got.URL.RequestURI() != want {
+			h.monfail("h3writers/request-differs", fmt.Sprintf("target %q after the round trip, want %q", got.URL.RequestURI(), want), detail)
+		}
+	} else if !isConnect || isExt {
 		wantPath := ur.Path
 		if wantPath == "" {
 			wantPath = "/"
@@ -335,7 +346,8 @@ func (h *h3run) writerResponse(r *u.Rng, i int) {
 			h.monfail("h3writers/panic", fmt.Sprint(p), detail)
 		}
 	}()
-	fs, tfs, err := http3.VerifEncodeResponse(status, hdr, body, trailerVals, early)
+	fs, tfs, snap1, snap2, err := http3.VerifEncodeResponseSnap(status, hdr, body, trailerVals, early)
+	h3wResponseCases(h.w, status, hdr, body, trailerVals, early, fs, tfs, snap1, snap2, err)
 	if err != nil && strings.HasPrefix(err.Error(), "verif: trailers:") {
 		h.dist["response-trailers:undecodable"]++
 		h.monfail("h3writers/response-trailers-undecodable", "the response writer emitted a trailer HEADERS frame the peer cannot decode: "+err.Error(), detail)
@@ -488,6 +500,13 @@ func (h *h3run) writerTrailers(r *u.Rng, i int) {
 		}
 	}()
 	fs, written, err := http3.VerifEncodeRequestTrailers(tr)
+	if err == nil {
+		res := "None"
+		if written {
+			res = u.Opt(true, coqFields(fs))
+		}
+		fmt.Fprintf(h.w, "CASE %d %s\n", map[bool]int{false: 0, true: 1}[written], u.App("WTr", coqHeader(tr), res))
+	}
 	if err != nil {
 		h.monfail("h3writers/trailers-undecodable", "writeTrailers emitted a HEADERS frame the peer cannot decode: "+err.Error(), detail)
 		return
@@ -522,5 +541,79 @@ func (h *h3run) writerTrailers(r *u.Rng, i int) {
 	}
 	if !sameMultimap(lowerKeys(got, nil), want) {
 		h.monfail("h3writers/trailers-differ", fmt.Sprintf("trailers %q after the round trip, want %q", got, want), detail)
+	}
+}
+
+// ---- correspondence cases for the H3Writers model ----
+
+func h3wStrList(xs []string) string {
+	q := make([]string, len(xs))
+	for i, x := range xs {
+		q[i] = hs(x)
+	}
+	return u.List(q)
+}
+
+// h3wRequestCase prints the abstract request (what encodeHeaders reads, external steps resolved)
+// and the emitted field list. The iteration order of req.Trailer is an oracle recovered from the
+// emitted "trailer" field; the order of req.Header does not matter (multiset comparison).
+func h3wRequestCase(w *bufio.Writer, req *http.Request, gzip bool, fs []hf, err error) {
+	if err != nil && strings.HasPrefix(err.Error(), "verif:") {
+		return
+	}
+	a := http3.VerifAbstractRequest(req)
+	var order []string
+	seen := map[string]bool{}
+	for _, f := range fs {
+		if f.Name == "trailer" {
+			for _, k := range strings.Split(f.Value, ", ") {
+				if _, ok := req.Trailer[k]; ok && !seen[k] {
+					order = append(order, k)
+					seen[k] = true
+				}
+			}
+		}
+	}
+	var rest []string
+	for k := range req.Trailer {
+		if !seen[k] {
+			rest = append(rest, k)
+		}
+	}
+	sort.Strings(rest)
+	order = append(order, rest...)
+	res, nt := "None", 0
+	if err == nil {
+		res, nt = u.Opt(true, coqFields(fs)), 1
+	}
+	fmt.Fprintf(w, "CASE %d %s\n", nt, u.App("WReq", hs(a.Method), hs(a.Scheme), hs(a.Host), u.B(a.HostOK), hs(a.URI), hs(a.Proto),
+		coqHeader(req.Header), u.B(gzip), u.Z(a.CL), h3wStrList(order), res))
+}
+
+func h3wResponseCases(w *bufio.Writer, status int, hdr http.Header, body []byte, trailerVals http.Header, early bool,
+	fs, tfs []hf, snap1, snap2 http.Header, err error) {
+	if snap1 == nil || fs == nil {
+		return
+	}
+	fmt.Fprintf(w, "CASE 1 %s\n", u.App("WRsp", u.Z(int64(status)), coqHeader(snap1), coqFields(fs)))
+	if len(body) == 0 { // WriteHeader's defaults (with a body, content-type sniffing interferes)
+		before := hdr.Clone()
+		if early {
+			for k, vv := range trailerVals {
+				before[k] = vv
+			}
+		}
+		date := ""
+		if d := snap1["Date"]; len(d) > 0 {
+			date = d[0]
+		}
+		fmt.Fprintf(w, "CASE 1 %s\n", u.App("WPrep", hs(date), coqHeader(before), coqHeader(snap1)))
+	}
+	if snap2 != nil && err == nil {
+		res, nt := "None", 0
+		if tfs != nil {
+			res, nt = u.Opt(true, coqFields(tfs)), 1
+		}
+		fmt.Fprintf(w, "CASE %d %s\n", nt, u.App("WRspTr", coqHeader(snap1), coqHeader(snap2), res))
 	}
 }
